@@ -80,6 +80,12 @@ pub trait Model: Sync {
     fn render_sub(&self, sub: u16) -> String {
         format!("!dev{}", sub)
     }
+    /// event paths (from the first initial state) that build the additional initial states; every step
+    /// of them is executed under the monitors before the search starts ("checked prefill"), so a defect
+    /// that shows *while* a large state is being built is reported, not baked into a start state
+    fn checked_prefill(&self) -> Vec<(String, Vec<Self::Event>)> {
+        vec![]
+    }
 }
 
 fn render_step<M: Model>(m: &M, events: &[M::Event], e: u16, sub: u16) -> String {
@@ -212,6 +218,52 @@ pub fn explore<M: Model>(m: &M, caps: &Caps, seed: u64) -> Outcome {
             seen.insert(k, id);
             parents.push((u32::MAX, i as u16, 0));
             frontier.push((id, s.clone()));
+        }
+    }
+    // checked prefill (see `Model::checked_prefill`)
+    let mut prefill_viols: Vec<FoundViol> = vec![];
+    for (_label, path) in m.checked_prefill() {
+        let Some((init_label, s0)) = inits.first() else { break };
+        let mut s = s0.clone();
+        for (i, e) in path.iter().enumerate() {
+            let so = m.step(&s, e, &mut out.stats);
+            out.transitions += 1;
+            for v in so.viols {
+                *out.viol_counts.entry(v.class.clone()).or_insert(0) += 1;
+                if prefill_viols.iter().filter(|x| x.class == v.class).count() < KEEP_PER_CLASS {
+                    // replay the prefix twice from the initial state: it must reproduce identically
+                    let mut ok = true;
+                    for _round in 0..2 {
+                        let mut r = s0.clone();
+                        let mut st = Stats::default();
+                        let mut hit = false;
+                        for (j, e2) in path[..=i].iter().enumerate() {
+                            let so2 = m.step(&r, e2, &mut st);
+                            if j == i {
+                                hit = so2.viols.iter().any(|x| x.class == v.class);
+                            } else {
+                                match so2.next {
+                                    Some(n) => r = n,
+                                    None => break,
+                                }
+                            }
+                        }
+                        ok &= hit;
+                    }
+                    prefill_viols.push(FoundViol {
+                        class: v.class.clone(),
+                        detail: v.detail.clone(),
+                        init: init_label.clone(),
+                        path: path[..=i].iter().map(|e| m.render_event(e)).collect(),
+                        depth: i + 1,
+                        reproduced: ok,
+                    });
+                }
+            }
+            match so.next {
+                Some(n) => s = n,
+                None => break,
+            }
         }
     }
     let mut raw_viols: Vec<(u32, u16, Viol)> = vec![];
@@ -356,6 +408,7 @@ pub fn explore<M: Model>(m: &M, caps: &Caps, seed: u64) -> Outcome {
         }
     };
 
+    out.viols.extend(prefill_viols);
     // replay every kept violation twice from the initial state: it must reproduce identically
     for (pid, ei, v) in &raw_viols {
         let (ii, mut evs) = path_of(*pid);
@@ -423,7 +476,14 @@ pub fn maybe_replay<M: Model>(m: &M) -> Option<Outcome> {
         out.name = String::new(); // marker: skipped
         return Some(out);
     }
-    let events = m.events();
+    let mut events = m.events();
+    for (_, p) in m.checked_prefill() {
+        for e in p {
+            if !events.iter().any(|x| m.render_event(x) == m.render_event(&e)) {
+                events.push(e);
+            }
+        }
+    }
     let inits = m.inits();
     let Some((_, s0)) = inits.iter().find(|(l, _)| l == init) else {
         println!("REPLAY-ERROR unknown initial state {:?}", init);
